@@ -31,7 +31,7 @@ ASSUMPTIONS = [
 PROBES = ["dirruns", "inputs_ge_3", "cross_file_var_ref", "stale_output_present", "repeat_run_checked", "enum_runs",
           "fault:non-utf8", "fault:empty", "fault:dir-named-css", "fault:dangling-link", "fault:unserialisable",
           "fault:eacces", "fault:eio", "fault:late-unserialisable", "fault:out-is-dir", "fault:eacces-out",
-          "fault_first", "fault_middle", "fault_last", "cm_named_input_present", "late_fault_defines_props_others_reference",
+          "fault_first", "fault_middle", "fault_last", "cm_named_input_present", "late_fault_defines_props_others_reference", "symlinked_stylesheet_input",
           "outputs_compared"]
 
 FAULT_KINDS = ("non-utf8", "empty", "dir-named-css", "dangling-link", "unserialisable", "eacces", "eio",
@@ -143,6 +143,10 @@ def generate(rseed, tier, idx):
         tree[g.choice(_DIRS) + g.choice(("_cm.css", "x_cm_cm.css", "a_cm.CSS"))] = {"k": "css", "text": ".v{color:#777}", "bystander": True}
     if g.random() < 0.3:
         tree["notes.css.bak"] = {"k": "css", "text": ".n{color:#777}", "bystander": True}
+    if g.random() < 0.2:
+        tops = sorted(r for r in tree if tree[r].get("ast") and "/" not in r)
+        if tops:
+            tree["alias.css"] = {"k": "link", "to": g.choice(tops)}
     # stale outputs from an earlier (possibly crashed) run
     for rel in sorted(tree):
         if rel.endswith(".css") and not rel.endswith("_cm.css") and tree[rel].get("ast") and g.random() < 0.15:
@@ -374,6 +378,15 @@ def execute(trace):
             expect = {}
             for rel in inputs:
                 ent = before[rel]
+                if ent[0] == "l":
+                    # a link to a stylesheet inside the tree is processed like the stylesheet itself
+                    tgt = os.path.normpath(os.path.join(os.path.dirname(rel), ent[1]))
+                    if before.get(tgt, ("x",))[0] == "f":
+                        snap2 = dict(before)
+                        snap2[rel] = before[tgt]
+                        expect[rel] = _solo(cache, snap2, rel, st["settings"], fault_by_path.get(rel), env)
+                        bump("symlinked_stylesheet_input")
+                        continue
                 if ent[0] == "f":
                     expect[rel] = _solo(cache, before, rel, st["settings"], fault_by_path.get(rel), env)
                 else:
